@@ -152,6 +152,9 @@ func H_mutate() {
 	}
 	src := &hSource{data: mut, failAt: -1, mode: vfParam("rsrc")}
 	zr := NewReader(src)
+	if hStreamNum > 0 {
+		vfAssume(zr.Apply(ConcurrencyOption(hStreamNum)) == nil)
+	}
 	var out []byte
 	var err error
 	clean := false
@@ -358,6 +361,9 @@ func H_stream() {
 	}
 	src := &hSource{data: stream, failAt: -1, mode: vfParam("rsrc")}
 	zr := NewReader(src)
+	if hStreamNum > 0 {
+		vfAssume(zr.Apply(ConcurrencyOption(hStreamNum)) == nil)
+	}
 	var out []byte
 	var err error
 	clean := false
@@ -393,6 +399,10 @@ func H_stream() {
 		if !isMagic {
 			vfAssert("stream-non-magic-is-invalid-frame", vfAnd(!clean, errors.Is(err, ErrInvalidFrame)))
 		}
+	}
+	if hStreamNum > 1 {
+		// C08: the end of the stream or an error has been reported, nothing stays behind
+		vfAssert("conc-r-no-goroutine-leak", vfSettle() == 0)
 	}
 	// C05: a clean end implies the reference parser accepts what was consumed, same output
 	if clean {
